@@ -33,10 +33,10 @@ def base_model_sig(extra_fields=()):
     return ms
 
 
-def project_of(ms, upgrade_method=None, applied=None):
+def project_of(ms, upgrade_method=None, applied=None, app_id='va'):
     from django_evolution.signature import ProjectSignature, AppSignature
     ps = ProjectSignature()
-    a = AppSignature(app_id='va', legacy_app_label='va',
+    a = AppSignature(app_id=app_id, legacy_app_label=app_id,
                      upgrade_method=upgrade_method,
                      applied_migrations=applied)
     a.add_model_sig(ms)
@@ -101,6 +101,13 @@ def constructed(depth):
         if True:
             out.append(('app.upgrade_method=%s,applied=%s' % (um, applied),
                         project_of(base_model_sig(), um, applied), False))
+        # the same entry under the id of an app that IS installed and ships
+        # evolutions and migrations of its own (nothing may be guessed from
+        # the installed app when a version-2 signature is read)
+        for app_id in ('contenttypes', 'django_evolution'):
+            out.append(('app-installed.upgrade_method=%s,applied=%s,id=%s' % (
+                um, applied, app_id),
+                project_of(base_model_sig(), um, applied, app_id), False))
     for ut in ([('a', 'b')], [['a', 'b']], [('a', 'b'), ('b', 'a')],
                # several groups, declared in an order that is not the
                # sorted one
